@@ -1,7 +1,8 @@
 (* Props/C18.v -- zero-crossing search finds real crossings.
    Property theorems only; proofs are in Audio/ZeroCrossProofs.v. *)
 From Coq Require Import ZArith Lia.
-From PraatIO Require Import Audio.ZeroCross Audio.ZeroCrossProofs Textgrid.TgModel Textgrid.TgProofs Textgrid.TgZc.
+From PraatIO Require Import Audio.ZeroCross Audio.ZeroCrossProofs Textgrid.TgModel Textgrid.TgProofs Textgrid.TgZc
+  Tier.TierModel Audio.WavModel Textgrid.TgSplice Textgrid.TgSpliceProofs.
 Open Scope Z_scope.
 
 (* findNearestZeroCrossing is total for every recording, target and step: when it returns, the
@@ -67,3 +68,37 @@ Theorem C18_tg_zero_crossings_labels K s st t t' :
   zc_tier K s st t = Ok t' -> tname t' = tname t /\ Permutation.Permutation (tlabels t') (map strip (tlabels t)).
 Proof. intro H. split; [exact (zc_tier_name K s st t t' H)|exact (zc_tier_labels K s st t t' H)]. Qed.
 Print Assumptions C18_tg_zero_crossings_labels.
+
+(* audioSplice (model splice, compared with the script in Coq on recording and textgrid): splicing keeps audio and text in
+   step.  If the textgrid ends where the recording ends (names unique, tiers well-formed and inside that span), then
+   whatever the call returns -- with or without moving the times to zero crossings, with or without a region to cut out --
+   is again a recording and a textgrid that end together.  Without alignment the requested times must be sample
+   positions (otherwise the audio is cut at the nearest sample and the text at the requested time). *)
+Theorem C18_splice_in_step K s seg st g n lab a b align s' g' : 0 < K ->
+  ready (dur K s) g ->
+  (align = false -> on_grid K s a /\ match b with Some x => on_grid K s x | None => True end) ->
+  splice K s seg st g n lab a b align = Ok (s', g') ->
+  tgmax g' = Some (dur K s').
+Proof. exact (splice_in_step K s seg st g n lab a b align s' g'). Qed.
+Print Assumptions C18_splice_in_step.
+
+(* ... and, when nothing is cut out, the named tier holds the new interval (label trimmed) at the place the splice went
+   to, exactly as long as the inserted audio; the samples under it are the inserted piece, and the recording grew by
+   exactly that much *)
+Theorem C18_splice_new_interval K s seg st g n lab a align s' g' : 0 < K ->
+  ready (dur K s) g -> (align = false -> on_grid K s a) ->
+  splice K s seg st g n lab a None align = Ok (s', g') ->
+  exists p i, splice_prep K s seg st g a None align = Ok p
+    /\ find_tier n (tiers g') = Some (TI i)
+    /\ In (mkI (p_a p) (p_a p + dur K (p_seg p)) (strip lab)) (ients i)
+    /\ between s' (frK K (p_a p)) (frK K (p_a p + dur K (p_seg p))) = p_seg p
+    /\ dur K s' = dur K s + dur K (p_seg p).
+Proof. exact (splice_new_interval K s seg st g n lab a align s' g'). Qed.
+Print Assumptions C18_splice_new_interval.
+
+(* _shiftTimes (the helper that moves entries lying exactly on a time to its zero crossing) keeps the textgrid
+   fit for the splice: span, unique names, well-formed tiers inside the span *)
+Theorem C18_shift_times_keeps_ready M tv nv g g' :
+  0 <= nv <= M -> ready M g -> shift_tg tv nv g = Ok g' -> ready M g'.
+Proof. exact (shift_tg_ready M tv nv g g'). Qed.
+Print Assumptions C18_shift_times_keeps_ready.
